@@ -694,7 +694,7 @@ def stage_parser(ck, drv, sample_lines, n_mut, hist):
 
 
 # ------------------------------------------------------------------ entry
-N_THEOREMS = 18
+N_THEOREMS = 17
 
 
 def run(ck):
